@@ -98,9 +98,12 @@ PLANS["C03"] = dict(
     level_text="TLC checks the store-loading loop (type filter, de-duplication, error propagation) against the declarative statement for every "
                "placement of root/intermediate/leaf/unrelated certificates into four named stores of three types, every store list, a second "
                "statement and both schemes, plus a frame lemma (stores that are not listed-and-wanted never matter); every placement is replayed "
-               "against the real verifier with real chains, both envelope formats.",
-    level_note="Trusted: notation-core-go VerifyAuthenticity (certificate equality), Go crypto, TLC. The sweep uses a logging in-memory trust store; "
-               "the real file-system trust store is exercised under C13.",
+               "against the real verifier with real chains, both envelope formats. A second model (VStoresHist) states that a verifier answers "
+               "every verification of a history from the trust-store directory and that verification alone (refining the four-store model); "
+               "histories of two verifications over all directories of five named stores (names shared across ca / signingAuthority / tsa, "
+               "time-stamped signatures that make the verifier read tsa stores) are run with ONE verifier over a real directory.",
+    level_note="Trusted: notation-core-go VerifyAuthenticity (certificate equality), Go crypto, TLC. The placement sweep uses a logging in-memory "
+               "trust store, the history phase the real file-system trust store (its loading rules are C13's).",
     rule="cases = all (scheme, store contents, store list, other-statement store, level) of MC_Verifier_C03; non-trivial = authenticity must fail "
          "or a chain certificate sits in a store that must not confer trust",
     exhaustive=True,
@@ -111,6 +114,14 @@ PLANS["C03"] = dict(
                  select=take_all),
         drive=dict(driver="verifier"),
         validate=dict(module="Trace_Verifier", cfg=trace_cfg(["verdict", "outcome", "authenticity", "results", "actions"])),
+    ), dict(
+        # histories: ONE verifier over a real trust-store directory (names shared across store types) answers several verifications
+        name="fs-histories",
+        gen=dict(module="MC_Verifier_C03H",
+                 cfg=lambda tier, seed: mc_cfg(["Inv_C03H", "Inv_Stateless", "Inv_Refines", "Inv_Frame", "Inv_Emit"], consts=["HistLen = 2", "MaxList = 2", "Wide = TRUE" if tier == "thorough" else "Wide = FALSE"]),
+                 select=slicer(8000)),
+        drive=dict(driver="stores-history"),
+        validate=dict(module="Trace_VStoresHist", cfg=trace_cfg()),
     )],
 )
 
@@ -297,7 +308,8 @@ PLANS["C15"] = dict(
                "answers only the last bundle stored under exactly that URL while fresh, with a frame lemma (other URLs never affected); every "
                "history is executed on the real FileCache in a sandbox (near-identical, traversal, 10 kB, empty and NUL-containing URL strings; "
                "real CRLs with chosen next-update times; the stored file is corrupted on disk) and TLC validates every observation; returned "
-               "CRLs are compared byte-for-byte with the stored DER and the sandbox parent is snapshotted for containment.",
+               "CRLs are compared byte-for-byte with the stored DER and the sandbox parent is snapshotted for containment. Overlapping stores of "
+               "different URLs in one FileCache (gated TLC-simulated schedules of the concurrent model) are validated step by step as well.",
     level_note="Trusted: TLC, crypto/x509 CRL parsing. Expiry is exercised with next-update one hour in the past / ten days in the future "
                "(no equality with the clock). A bit flip is applied where it makes the file malformed (first DER byte).",
     rule="cases = all operation histories of the bounded alphabets; all non-trivial (contain stores and reads); distinct = distinct history",
@@ -307,6 +319,14 @@ PLANS["C15"] = dict(
              validate=dict(module="Trace_CRLCacheSeq", cfg=C15_TRACE)),
         dict(name="urls", gen=dict(module="MC_CRLCache_C15", cfg=c15_cfg_wide, select=take_all), drive=dict(driver="crl-seq"),
              validate=dict(module="Trace_CRLCacheSeq", cfg=C15_TRACE)),
+        # "distinct URLs never share or overwrite an entry" also while stores of different (near-identical) URLs overlap in one FileCache:
+        # the gated schedules of the concurrent model (CRLCache.tla, see C14), every entry decoded after every step
+        dict(name="overlapping-stores",
+             gen=dict(module="MC_CRLCache_C14", cfg=c14_cfg("w3r2", 2, 2, 1, emit=True, maxhist=60, props=(), view=False), workers=1,
+                      extra=lambda tier, seed: ["-simulate", "num=" + ("1500" if tier == "thorough" else "300"), "-depth", "70", "-seed", str(seed + 7)],
+                      select=take_all),
+             drive=dict(driver="crl-sched"),
+             validate=dict(module="Trace_CRLCache", cfg=C14_TRACE_CFG)),
     ],
 )
 
